@@ -1965,6 +1965,7 @@ class GroupBy:
         result = (
             pd.DataFrame(dict(zip(col_names, value_list)), copy=False)
             .iloc[ilocs]
+            .copy()  # taking all rows in order returns a view of the caller's array
             .set_index(out_index)
         )
         result = self._maybe_squeeze_to_1d(
